@@ -22,6 +22,7 @@ type scriptRWC struct {
 	wrote         []byte
 	writes        [][]byte
 	onWrite       func(p []byte) // optional hook (called without the lock)
+	onRead        func()         // optional progress hook (called without the lock, when bytes were served)
 	readsAfterEnd int
 }
 
@@ -52,7 +53,11 @@ func (s *scriptRWC) Read(p []byte) (int, error) {
 		}
 		copy(p, s.in[s.pos:s.pos+n])
 		s.pos += n
+		f := s.onRead
 		s.mu.Unlock()
+		if f != nil {
+			f()
+		}
 		return n, nil
 	}
 	s.readsAfterEnd++
